@@ -157,6 +157,15 @@ func checkDuration(t world.TB, tenths int64) {
 	if err2 != nil || got2 != d || !a.IsRelativeTime() {
 		world.Fail(t, "C19/duration/roundtrip-relative", "NewAbsoluteOrRelativeTimeTypeFromDuration(%v)=%q reads back as %v (err %v)", d, *a, got2, err2)
 	}
+	// ... and through the duration text the absolute-or-relative type hands out (a third way from text to duration and back)
+	dt, err3 := a.GetDurationType()
+	if err3 != nil || dt == nil {
+		world.Fail(t, "C19/duration/roundtrip-relative-durationtype", "GetDurationType of %q (%v): %v", *a, d, err3)
+		return
+	}
+	if got3, err4 := dt.GetTimeDuration(); err4 != nil || got3 != d {
+		world.Fail(t, "C19/duration/roundtrip-relative-durationtype", "%v -> %q -> GetDurationType %q reads back as %v (err %v)", d, *a, *dt, got3, err4)
+	}
 }
 
 func unitsOf(tenths int64) int {
@@ -247,6 +256,10 @@ func TestInstant(t *testing.T) {
 		if a.IsRelativeTime() {
 			world.Fail(t, "C19/instant/is-relative", "absolute instant %q reported as relative", *a)
 		}
+		// the date-time text the absolute-or-relative type hands out names the same instant
+		if got3, err3 := a.GetDateTimeType().GetTime(); err3 != nil || !got3.Equal(ts) {
+			world.Fail(t, "C19/instant/roundtrip-datetime", "instant %v -> %q -> GetDateTimeType -> %v (err %v)", ts.UTC(), *a, got3, err3)
+		}
 	}))
 }
 
@@ -293,6 +306,30 @@ func TestTimePeriod(t *testing.T) {
 			world.Fail(t, "C19/timeperiod/marshal", "marshal: %v", err)
 		}
 		var back model.TimePeriodType
+		// the variable the text is decoded into may have held another period before (a receiver that
+		// is used again, or the period member of a data item that is decoded a second time): what is
+		// read back is the period of the text, nothing of the earlier one
+		switch rapid.SampledFrom([]string{"fresh", "fresh", "reused", "reused-in-item"}).Draw(t, "receiver") {
+		case "reused":
+			world.Label("timeperiod/receiver-reused")
+			earlier := `{"startTime":"2020-01-01T00:00:00Z","endTime":"2040-01-01T00:00:00Z"}`
+			if err := json.Unmarshal([]byte(earlier), &back); err != nil {
+				world.Fail(t, "C19/timeperiod/unmarshal", "unmarshal %s: %v", earlier, err)
+			}
+		case "reused-in-item":
+			world.Label("timeperiod/receiver-reused-in-item")
+			var item model.LoadControlLimitDataType
+			earlier := `{"limitId":1,"timePeriod":{"startTime":"2020-01-01T00:00:00Z","endTime":"2040-01-01T00:00:00Z"}}`
+			if err := json.Unmarshal([]byte(earlier), &item); err != nil {
+				world.Fail(t, "C19/timeperiod/unmarshal", "unmarshal %s: %v", earlier, err)
+			}
+			again := []byte(`{"limitId":1,"timePeriod":` + string(b) + `}`)
+			if err := json.Unmarshal(again, &item); err != nil || item.TimePeriod == nil {
+				world.Fail(t, "C19/timeperiod/unmarshal", "unmarshal %s: %v", again, err)
+			}
+			gi, err := item.TimePeriod.GetDuration()
+			near("json-reused-receiver", gi, err)
+		}
 		if err := json.Unmarshal(b, &back); err != nil {
 			world.Fail(t, "C19/timeperiod/unmarshal", "unmarshal %s: %v", b, err)
 		}
